@@ -70,7 +70,8 @@ def gen_history(rng, n_ops):
                     dict(function=REFORM_FUNCS[int(rng.integers(0, len(REFORM_FUNCS)))])
             tg = OLD_TARGETS[int(rng.integers(0, len(OLD_TARGETS)))] if old else TARGET_SETS[int(rng.integers(0, len(TARGET_SETS)))]
             call = dict(date=d, reform=reform,
-                        pop=dict(seed=int(rng.integers(0, 4)), n_hh=int(rng.choice([3, 6])), corner=[None, "huge"][int(rng.integers(0, 2))]),
+                        pop=dict(seed=int(rng.integers(0, 3)), n_hh=int(rng.choice([3, 6])), corner=[None, "huge"][int(rng.integers(0, 2))],
+                                 variant=[None, None, "move_children", "permute_p_ids", "reverse_rows", "scale_wages", "swap_households"][int(rng.integers(0, 7))]),
                         targets=tg, rounding=bool(rng.random() < 0.7), debug=bool(rng.random() < 0.2),
                         form=str(rng.choice(["df", "dict", "dict_convert", "df_convert"])),
                         edited_groups=list(edits[s]), edited_functions=list(fedits[s]))
